@@ -57,7 +57,8 @@ ASSUMPTIONS = [
     "outside the documented range (negative ones included: the documented ranges are 0..3, 0..7, 0..2), a third distinct "
     "projection surface on an edge, length_ratio outside (0, 1], inner radius >= outer, radius vector not perpendicular "
     "to the axis, negative chain length, different face counts, second clamp on a vertex, clamp/link off every vertex, "
-    "grade/backport before assembly.  Corner pairs that are in range but no hexahedron edge, coordinates per point, "
+    "grade/backport before assembly.  A pair of in-range corners that is no edge of the hexahedron is treated as an index "
+    "outside the valid set as well (documented by CornerPairError and Frame.add_beam).  Coordinates per point, "
     "Loft.from_series with < 2 faces, zero projection labels, chain length 0, non-positive radii and a link whose leader "
     "and follower coincide are counted, not judged",
     "tolerance bands: perpendicularity / coplanarity are compared by the library with TOL = 1e-7 on an un-normalised "
@@ -280,7 +281,11 @@ def pair_class(a: int, b: int) -> str:
 
 
 def pair_expected(k: str) -> str:
-    return {"edge": "accept", "in-range-not-an-edge": "open"}.get(k, "reject")
+    # a pair of valid corner numbers that is no edge of the hexahedron (diagonals, corners of different faces, twice the
+    # same corner) violates the documented precondition as well: CornerPairError "Raised when given pair of corners is not
+    # valid (for example, edge between 0 and 2)", Frame.add_beam "raises an exception if the given pair does not represent a
+    # beam" - the second index is outside the set of corners the first one has an edge with
+    return "accept" if k == "edge" else "reject"
 
 
 def pair_st():
@@ -297,7 +302,7 @@ def check_project_edge(case, ctx: Ctx) -> None:
     op = loft_in_frame(case["frame"])
     k = pair_class(a, b)
     judge(ctx, "Operation.project_edge", k, pair_expected(k), lambda: op.project_edge(a, b, "terrain"), pair=[a, b])
-    ctx.nt(k != "edge" and (min(a, b) in (-1, -8) or max(a, b) in (8, 15)) or k == "edge")
+    ctx.nt(k in ("edge", "in-range-not-an-edge") or min(a, b) in (-1, -8) or max(a, b) in (8, 15))
 
 
 def check_block_add_edge(case, ctx: Ctx) -> None:
@@ -308,7 +313,7 @@ def check_block_add_edge(case, ctx: Ctx) -> None:
     edge = fixture("Block.add_edge", lambda: factory.create(verts[0], verts[1], cbe.Line()))
     k = pair_class(a, b)
     judge(ctx, "Block.add_edge", k, pair_expected(k), lambda: block.add_edge(a, b, edge), pair=[a, b])
-    ctx.nt(k != "edge" and (min(a, b) in (-1, -8) or max(a, b) in (8, 15)) or k == "edge")
+    ctx.nt(k in ("edge", "in-range-not-an-edge") or min(a, b) in (-1, -8) or max(a, b) in (8, 15))
 
 
 def check_frame_add_beam(case, ctx: Ctx) -> None:
@@ -316,7 +321,7 @@ def check_frame_add_beam(case, ctx: Ctx) -> None:
     fr = Frame()
     k = pair_class(a, b)
     judge(ctx, "Frame.add_beam", k, pair_expected(k), lambda: fr.add_beam(a, b, "beam"), pair=[a, b])
-    ctx.nt(k != "edge" and (min(a, b) in (-1, -8) or max(a, b) in (8, 15)) or k == "edge")
+    ctx.nt(k in ("edge", "in-range-not-an-edge") or min(a, b) in (-1, -8) or max(a, b) in (8, 15))
 
 
 def check_chop_axis(case, ctx: Ctx) -> None:
@@ -945,7 +950,7 @@ CELLS = [
          check_project_corner, 80, 3000, "Operation.project_corner(corner): accepted iff 0 <= corner <= 7",
          fixed_cases=_fixed_index(0, 7, single=True)),
     Cell("C20/index/project-edge", _pairs, check_project_edge, 150, 6000,
-         "Operation.project_edge(c1, c2): the 24 ordered edges accepted, any corner outside 0..7 rejected (in-range non-edges counted)",
+         "Operation.project_edge(c1, c2): the 24 ordered edges accepted, any corner outside 0..7 rejected and in-range pairs that are no edge rejected",
          fixed_cases=_fixed_pairs()),
     Cell("C20/index/block-add-edge", _pairs, check_block_add_edge, 100, 4000,
          "Block.add_edge(c1, c2, edge): as project-edge", fixed_cases=_fixed_pairs()),
